@@ -160,7 +160,13 @@ pub fn run(ctx: &'static Ctx) {
             machinery_panic(&format!("C06 host seed {} does not decode: {}", h.label, h.baseline.show()));
         }
     }
-    let names_all = ["transports", "credBlob", "minPinLength", "credProps", "hmac-secret-mc", "prf", "", "x", "Id", "ids"];
+    let names_all = [
+        "transports", "credBlob", "minPinLength", "credProps", "hmac-secret-mc", "prf", "", "x", "Id", "ids",
+        // WebAuthn-level names of extensions and of their inputs, and every feature-gated member name
+        // (unknown wherever the host does not know it)
+        "appid", "appidExclude", "uvm", "largeBlob", "payment", "credentialProtectionPolicy", "enforceCredentialProtectionPolicy", "hmacCreateSecret", "hmacGetSecret", "devicePubKey",
+        "thirdPartyPayment", "largeBlobKey", "hmac-secret", "credProtect", "uv", "up", "rk", "displayName", "icon", "url", "name", "alg", "type",
+    ];
     let mut keys: Vec<V> = names_all.iter().map(|n| V::t(n)).collect();
     keys.push(V::t(&"k".repeat(255)));
     let nodes = if ctx.thorough() { 5 } else { 3 };
